@@ -151,21 +151,38 @@ class Interp:
                     return True
         return False
 
+    def _vmeth(self, visitor: AObj, name: str) -> Func | None:
+        return self.repo.find_method(visitor.cls, name)
+
     def visit_dispatch(self, visitor: Any, ctx: Any) -> Any:
+        """ctx.accept(visitor) of the parser runtime."""
+        if not isinstance(visitor, AObj):
+            raise Unsupported("visit with a non-object visitor")
         if isinstance(ctx, Tok):
-            return None
-        if not isinstance(ctx, ACtx) or not isinstance(visitor, AObj):
+            m = self._vmeth(visitor, "visitTerminal")
+            if m is not None:
+                return self.call_func(m, [visitor, ctx], {})
+            d = self._vmeth(visitor, "defaultResult")
+            return self.call_func(d, [visitor], {}) if d is not None else None
+        if not isinstance(ctx, ACtx):
             raise Unsupported("visit of a non-context")
         name = "visit" + ctx.rule[0].upper() + ctx.rule[1:]
-        m = self.repo.find_method(visitor.cls, name)
+        m = self._vmeth(visitor, name)
         if m is not None:
             return self.call_func(m, [visitor, ctx], {})
         return self.visit_children(visitor, ctx)
 
     def visit_children(self, visitor: Any, ctx: Any) -> Any:
-        res = None
+        """AbstractParseTreeVisitor.visitChildren: defaultResult, then aggregateResult over the children's results (overrides honoured)."""
+        d = self._vmeth(visitor, "defaultResult")
+        agg = self._vmeth(visitor, "aggregateResult")
+        should = self._vmeth(visitor, "shouldVisitNextChild")
+        res = self.call_func(d, [visitor], {}) if d is not None else None
         for ch in list(ctx.children):
-            res = self.visit_dispatch(visitor, ch)
+            if should is not None and not self.truth(self.call_func(should, [visitor, ctx, res], {})):
+                return res
+            r = self.visit_dispatch(visitor, ch)
+            res = self.call_func(agg, [visitor, res, r], {}) if agg is not None else r
         return res
 
     # ------------------------------------------------------------------ objects
@@ -833,6 +850,8 @@ class Interp:
                 ok = self.equal(left, right)
             elif isinstance(op, ast.NotEq):
                 ok = not self.equal(left, right)
+            elif isinstance(op, (ast.In, ast.NotIn)) and isinstance(left, str) and isinstance(right, str):
+                ok = (left in right) == isinstance(op, ast.In)  # substring test
             elif isinstance(op, ast.In):
                 ok = any(self.equal(left, x) for x in self.iterate(right)) if not isinstance(right, (dict, set)) or isinstance(left, (AObj, EnumVal)) else left in right
             elif isinstance(op, ast.NotIn):
